@@ -286,8 +286,16 @@ def run_case(ctx, case):
                     (p.sys.domain.MatrixArray_to_fourier if m.space == Space.Real else p.sys.domain.MatrixArray_to_real)(m)
                 else:
                     ctx.hook('op.resolve')
-                    res = G.solve(p, method, dict(opts), guess=np.array(p.minimize_result.x))
-                    if res is None or not res.success:
+                    # the guess is either a copy or the very array the object / the previous result holds (guess=PRISM.x, guess=result.x)
+                    gsel = (len(case['history']) + step) % 3
+                    garr = np.array(p.minimize_result.x) if gsel == 0 else (p.x if gsel == 1 else p.minimize_result.x)
+                    gkeep = np.array(garr, copy=True)
+                    res = G.solve(p, method, dict(opts, maxiter=1) if gsel == 2 and (step % 2) else dict(opts), guess=garr)
+                    if not np.array_equal(np.asarray(garr), gkeep, equal_nan=True):
+                        ctx.violation('hist:solve-overwrites-the-guess-array', '%s: solve(guess=%s) changed the array it was given as initial guess (max change %.3g): the re-solve did not start from the solution' % (
+                            where, ['a copy of the solution', 'PRISM.x', 'minimize_result.x'][gsel], float(np.abs(np.asarray(garr) - gkeep).max())))
+                        return
+                    if res is None or (not res.success and not (gsel == 2 and step % 2)):
                         raise core.Skip('re-solve from own solution did not converge')
                     resolved = True
                 errstate_after = np.geterr()
